@@ -41,6 +41,10 @@ pub struct W5Case {
     /// when the proxy built the request: (unix seconds, nanoseconds); absent = T0
     #[serde(default)]
     pub clock: Option<(i64, u32)>,
+    /// the request carries no date (`created_at` is a public `Option`; a proxy that sends none is legal): what is
+    /// restored from its JSON must still be undated, not dated by whoever restores it
+    #[serde(default)]
+    pub undated: bool,
 }
 
 const HEADER_INPUTS: &[&[(&str, &str)]] = &[
@@ -517,6 +521,7 @@ impl World for W5 {
                 delivery_seed: rng.next_u64(),
                 stages: gen_stages(rng, &codes, false),
                 clock: None,
+                undated: false,
             }
         } else {
             // hand-off: actions that real routers emit for real rule pools
@@ -621,6 +626,7 @@ impl World for W5 {
                 delivery_seed: rng.next_u64(),
                 stages: gen_stages(rng, &codes, true),
                 clock,
+                undated: rng.chance(1, 8),
             }
         }
     }
@@ -682,6 +688,11 @@ impl World for W5 {
             c.sampling_override = None;
             out.push(c);
         }
+        if case.undated {
+            let mut c = case.clone();
+            c.undated = false;
+            out.push(c);
+        }
         out
     }
 
@@ -702,7 +713,7 @@ impl World for W5 {
         if mode == "fold" {
             "one run = 1-6 (thorough: up to 12) rules that all match the request, with colliding and distinct ranks, status codes, include/exclude response-code sets (incl. empty list), targets (absent / empty / set), 0-2 header filters over the five operations + unknown, body filters (html append/prepend, text append/prepend), log overrides, stop, reset, sampling in {none,0,1,50,99,100,150} x request override in {none,true,false} with simulator-supplied draws (boundary values), delivered to the action builder in a seeded order, handed to the proxy through JSON, then a seeded proxy stage history (request-time only / usual order / response-time only in another order / arbitrary) with codes from {0} u codes(R) u {200,404,500}; after every stage the returned value and the applied-rule set are compared with the reference fold. evaluations = stages compared. distinct_nontrivial = distinct (rules, override, stages) with at least 2 rules".to_string()
         } else {
-            "one run = a rule pool from the agent world's generator (all trigger kinds, markers with transformers in targets / header / body filters, variables, unit ids, sampling 0/100) matched by a real router against a request that went through its own JSON hand-off; the action is serialised and restored, and once more at a seeded point of the stage history; native and transported objects are driven through the same stages and must give identical observations and identical JSON. evaluations = stages compared. distinct_nontrivial = distinct cases whose action is not the default action".to_string()
+            "one run = a rule pool from the agent world's generator (all trigger kinds, markers with transformers in targets / header / body filters, variables, unit ids, sampling 0/100) matched by a real router against a request (one in eight carries no date) that went through its own JSON hand-off; the action is serialised and restored, and once more at a seeded point of the stage history; native and transported objects are driven through the same stages and must give identical observations and identical JSON. evaluations = stages compared. distinct_nontrivial = distinct cases whose action is not the default action".to_string()
         }
     }
 }
@@ -723,6 +734,9 @@ fn exec(case: &W5Case, ctx: &mut Ctx) {
     let built = guard(ctx, "request build + hand-off", || {
         let mut raw = build_request(&config, &case.request, now);
         raw.sampling_override = case.sampling_override;
+        if case.undated {
+            raw.created_at = None;
+        }
         let text = serde_json::to_string(&raw).unwrap();
         let back: Result<Request, _> = serde_json::from_str(&text);
         (raw, text, back)
